@@ -96,7 +96,9 @@ reg("C12", ["c12_slip.c"], level="fault_enumeration",
     rule="'strings-N': every octet string of length N <= 7 (quick) / <= 9 (thorough) over {END, ESC, ESC_END, "
          "ESC_ESC, 0x41}, each used (a) as payload (encode vs reference encoder, length bound, delimiter placement, "
          "decode round trip), (b) as raw decoder input (every decode call compared with a reference decoder: result, "
-         "delivered frame, octets consumed; emitted <= consumed; progress bound on source calls), (c) as garbage "
+         "delivered frame, octets consumed; emitted <= consumed; progress bound on source calls; after every decode call "
+         "a short payload is encoded with the decoder's own context and compared with the reference encoding, the "
+         "context with its state before), (c) as garbage "
          "prefix before three well-formed frames (delivered frames must end with the last two, or all three when the "
          "prefix is empty or - classic mode - ends in a delimiter); each in classic and start-of-frame mode with "
          "octet and chunk style source and sink drivers (8 configurations); (d) strings of length <= 5 and every "
@@ -126,7 +128,8 @@ reg("C17", ["c17_endpoints.c"], level="fault_enumeration",
          "a poisoned arena (a third of the sts_n / sts_drain runs over chunk sources expose a 1..5 octet transfer "
          "window through getbuffer); 'random': long transfers with random scripts; 'huge': single driver calls of "
          "2^31..2^32+3 octets and the largest legal count SSIZE_MAX; 'lib': the library's own buffer, chunk-list and "
-         "trivial endpoints; 'layered': a stuffing filter sink / un-stuffing source whose drivers use the endpoint API "
+         "trivial endpoints (every chunk-list source is read again after it reported its end; its descriptor array "
+         "is an exact-size poisoned block or the front of a longer array); 'layered': a stuffing filter sink / un-stuffing source whose drivers use the endpoint API "
          "on a lower endpoint, under sink_put_octet, sink_put_chunk, sts_cbc, sts_n_cbc, sts_drain_cbc, sts_n, "
          "sts_drain, sts_n_aux, source_get_chunk and source_get_octet. Endpoints are set up by the init functions or "
          "the header's initialiser macros, alternately. Injected hard error codes vary over small, large and count-like values. A signature is "
@@ -158,8 +161,8 @@ reg("C20", ["c20_sx.c"],
     rule="'trees': every tree with <= 6 nodes and depth <= 4 over symbols {a, foo-1, +} and integers {0, 7, 255, "
          "48879} (unranked from a counting recurrence; every 23rd tree from a seeded offset in quick, all in "
          "thorough), rendered with three whitespace policies and decimal / #x lower / #x upper / mixed number "
-         "formats, with and without trailing material, parsed NUL-terminated and length-delimited (exact-size "
-         "poisoned block without terminator); 'strings-N': every string of length N <= 5 (quick) / <= 7 (thorough) "
+         "formats, with and without trailing material, parsed NUL-terminated, length-delimited (exact-size "
+         "poisoned block without terminator) and with sx_parse() from a start offset behind other text; 'strings-N': every string of length N <= 5 (quick) / <= 7 (thorough) "
          "over '( ) space newline a 1 0 # x F' judged by a reference reader (verdict, tree, position); 'random': "
          "parenthesis-heavy random strings up to 39 characters. Every case checks the allocation ledger (bytes "
          "allocated before the parse == after sx_destroy) and, on error, that no tree is returned. A signature is "
